@@ -11,7 +11,7 @@ Definition w_fn_module : module :=
      m_funs := [{| f_name := 0; f_arity := 0; f_off := 1; f_len := 4294967295; f_locals := 0; f_upvals := 0 |}];
      m_code := [1; 0; 0; 0; 0; 0; 0; 0; 0; 61]; m_cap := 4096; m_imports := []; m_debug := [] |}.
 Lemma w_fn_crashes c : fx_fnrange c = false -> verifyC c w_fn_module = VCrash.
-Proof. destruct c as [a b c0 d e f g h i]; intros H; simpl in H; subst. vm_compute. reflexivity. Qed.
+Proof. destruct c as [a b c0 d e f g h i j]; intros H; simpl in H; subst. vm_compute. reflexivity. Qed.
 
 (* ------------------------------------------------------------------ the code buffer of a loaded module *)
 
